@@ -3,6 +3,8 @@ mod lsp;
 // with the in-memory reader the editor integration uses
 #[cfg(rajanmaghera_riscv_analysis_verif)]
 pub use lsp::LSPFileReader as VerifLSPFileReader;
+#[cfg(rajanmaghera_riscv_analysis_verif)]
+pub use lsp::{LSPDiag as VerifLSPDiag, LSPRVSingleDiagnostic as VerifLSPRVSingleDiagnostic};
 use lsp::{LSPDiag, LSPFileReader, LSPRVDiagnostic, LSPRVSingleDiagnostic, RVCompletionItem};
 use lsp_types::Diagnostic;
 use riscv_analysis::parser::{CanGetURIString, DirectiveType, ParserNode, RVDocument, RVParser};
